@@ -72,6 +72,8 @@ type FnRun struct {
 	frameAll      bool
 	globalsChecked map[string]bool
 	frameN        int
+	lockCovers    map[string]Term // per lock site: disjunction of the path conditions under which it was executed
+	lockCoverOrd  []string
 	lockTouched   map[string]bool // components forgotten at Lock/Unlock of a lock-style monitor (exempt from the frame check)
 }
 
@@ -86,7 +88,63 @@ func (e *Engine) NewRun(fn *ssa.Function, c *Contract) *FnRun {
 		Trusted: map[string]bool{}, Notes: map[string]bool{}, Inlined: map[string]bool{}, addrTable: map[string]*Loc{},
 		closures: map[string]*closureInfo{}, funcRefs: map[string]*ssa.Function{}, factsDone: map[string]bool{}, nameCount: map[string]int{},
 		globalsChecked: map[string]bool{}, snaps: map[string]*State{}, constCells: map[string]Term{}, trackTypes: map[string]types.Type{}, UsedContracts: map[string]bool{}, SpecFuns: map[string]bool{}, lockTouched: map[string]bool{}}
+	r.Heap.noQuantBase = c != nil && !contractNeedsQuantifiedHeapFacts(e, c)
 	return r
+}
+
+// contractNeedsQuantifiedHeapFacts: does the unit reason about unboundedly many heap cells (quantifiers, freshness,
+// sums, loop invariants)? If not, the typing facts attached to each load are all it can use.
+func contractNeedsQuantifiedHeapFacts(e *Engine, c *Contract) bool {
+	if c.HeapFacts == "on" {
+		return true
+	}
+	if c.HeapFacts == "off" {
+		return false
+	}
+	needs := func(src string) bool {
+		return strings.Contains(src, "forall") || strings.Contains(src, "exists") || strings.Contains(src, "fresh(") || strings.Contains(src, "sumLens")
+	}
+	var all []Clause
+	all = append(all, c.Requires...)
+	all = append(all, c.Ensures...)
+	all = append(all, c.Assumes...)
+	for _, cl := range c.Loops {
+		all = append(all, cl...)
+	}
+	for _, a := range c.Asserts {
+		all = append(all, a.Clause)
+	}
+	for _, cl := range all {
+		if needs(cl.Src) {
+			return true
+		}
+	}
+	for _, m := range e.DB.Monitors {
+		if m.PkgPath != c.PkgPath {
+			continue
+		}
+		if m.Kind == "lock" {
+			// only the monitors whose mutex this function takes (or is declared to hold) matter
+			uses := false
+			if f := e.FindFunc(c.Key); f != nil && e.isLockSection(m, f) {
+				uses = true
+			}
+			for _, h := range c.Holds {
+				if h.Mon == m.Name {
+					uses = true
+				}
+			}
+			if !uses {
+				continue
+			}
+		}
+		for _, inv := range append(append([]Clause{}, m.Invariants...), m.Trans...) {
+			if needs(inv.Src) {
+				return true
+			}
+		}
+	}
+	return false
 }
 
 func (r *FnRun) note(format string, a ...any) { r.Notes[fmt.Sprintf(format, a...)] = true }
@@ -140,6 +198,8 @@ type Frame struct {
 	top      bool // the unit under verification (not an inlined callee)
 	defers   []*ssa.Defer
 	rets     []retRec
+	suspended []suspRec // return paths stopped at their RunDefers: the deferred calls run once, on the merged state
+	resuming  bool
 	inEdges  map[*ssa.BasicBlock][]edge
 	loopOrd  map[*ssa.BasicBlock]int
 	backEdge map[[2]int]bool
@@ -158,6 +218,28 @@ type Frame struct {
 
 type edge struct {
 	pred  *ssa.BasicBlock
+	guard Term
+	st    *State
+}
+
+// lockSignature identifies which monitored locks a state holds (and on which objects).
+func lockSignature(st *State) string {
+	var parts []string
+	for k, v := range st.held {
+		if v {
+			parts = append(parts, k)
+		}
+	}
+	for k, h := range st.locks {
+		parts = append(parts, k+"@"+h.owner.S+fmt.Sprintf("#%p", h))
+	}
+	sort.Strings(parts)
+	return strings.Join(parts, ",")
+}
+
+type suspRec struct {
+	b     *ssa.BasicBlock
+	idx   int
 	guard Term
 	st    *State
 }
@@ -338,6 +420,44 @@ func (fr *Frame) runBody(st *State, g Term) (retGuard Term, out *State, results 
 		}
 		fr.execBlock(b, ci)
 	}
+	// deferred calls: every return path stopped at its RunDefers; run them once on the merge of those paths (the
+	// merge is an if-then-else over the path conditions, so nothing is lost), then finish each return path
+	if len(fr.suspended) > 0 {
+		// return paths are grouped by the locks they hold (paths that return before taking a lock and paths
+		// that return inside its critical section cannot share one execution of the deferred Unlock)
+		groups := map[string][]suspRec{}
+		var order []string
+		for _, s := range fr.suspended {
+			sig := lockSignature(s.st)
+			if _, ok := groups[sig]; !ok {
+				order = append(order, sig)
+			}
+			groups[sig] = append(groups[sig], s)
+		}
+		fr.suspended = nil
+		fr.resuming = true
+		for _, sig := range order {
+			grp := groups[sig]
+			var sgs []Term
+			var ssts []*State
+			for _, s := range grp {
+				sgs = append(sgs, s.guard)
+				ssts = append(ssts, s.st)
+			}
+			DebugWhere = "deferred calls of " + fn.Name()
+			fr.st = fr.R.Heap.Merge(fr.R.Sc, sgs, ssts)
+			fr.cur = fr.define("dfr."+fn.Name(), Or(sgs...))
+			fr.runDefers()
+			after, curAfter := fr.st, fr.cur
+			for _, s := range grp {
+				fr.st = after.Clone()
+				fr.cur = fr.define("rg", And(s.guard, curAfter))
+				fr.curBlock = s.b
+				fr.execBlockFrom(s.b, ci, s.idx+1)
+			}
+		}
+		fr.resuming = false
+	}
 	// merge returns
 	if len(fr.rets) == 0 {
 		return False, st, nil
@@ -395,11 +515,23 @@ func (fr *Frame) pushEdge(from, to *ssa.BasicBlock, g Term, ci *cfgInfo) {
 }
 
 func (fr *Frame) execBlock(b *ssa.BasicBlock, ci *cfgInfo) {
-	for _, in := range b.Instrs {
+	fr.execBlockFrom(b, ci, 0)
+}
+
+func (fr *Frame) execBlockFrom(b *ssa.BasicBlock, ci *cfgInfo, start int) {
+	for i, in := range b.Instrs {
+		if i < start {
+			continue
+		}
 		if fr.cur.S == "false" {
 			return
 		}
 		switch in := in.(type) {
+		case *ssa.RunDefers:
+			if !fr.resuming && len(fr.defers) > 0 {
+				fr.suspended = append(fr.suspended, suspRec{b, i, fr.cur, fr.st})
+				return
+			}
 		case *ssa.If:
 			c := fr.termOf(fr.val(in.Cond))
 			c = fr.define("c", c)
